@@ -7,6 +7,8 @@
 mod ast;
 mod builder;
 mod checks;
+mod classes;
+mod gen_fd;
 mod driver;
 mod engine;
 mod findings;
